@@ -507,6 +507,15 @@ def dyadic(rng):
     return rat_json(q)
 
 
+def trace_conc(rng):
+    """concentrations spread over 1e-30 … 1e3 (and exact zeros): trace species that may carry a whole element"""
+    r = rng.random()
+    if r < 0.15:
+        return 0
+    q = Fraction(rng.randint(1, 999), 10 ** rng.randint(0, 30)) if r < 0.8 else Fraction(rng.randint(1, 999))
+    return rat_json(q)
+
+
 class C15(Property):
     pid = 'C15'
     title = ('split() = connected components (partition of reactions, disjoint substance sets, connected groups); '
@@ -831,8 +840,13 @@ class C15(Property):
                 spec['subs'][rng.randrange(len(spec['subs']))][1][1] = None
             n = len(spec['subs']) if rng.random() < 0.93 else rng.randint(0, 13)
             skip = [0] if rng.random() < 0.85 else rng.choice([[], [0, 1], [8], [0, 6, 7]])
-            c = {'op': 'upper_bounds', 'sys': spec, 'init': [dyadic(rng) for _ in range(n)], 'skip': skip,
+            trace = rng.random() < 0.45
+            c = {'op': 'upper_bounds', 'sys': spec, 'init': [(trace_conc if trace else dyadic)(rng) for _ in range(n)], 'skip': skip,
                  'state_seed': rng.randint(0, 10 ** 9)}
+            if trace:
+                # decimal magnitudes are not exact doubles: the real sums carry rounding errors of a few ulp (all terms of an element
+                # total have the same sign for non-negative atom counts), so the exact reference is compared to 1e-12 relative
+                c['tol'] = 1e-12
             zero = any(v == 0 and k != 0 for _, sb in spec['subs'] for k, v in (sb[1] or []))
             if not zero and rng.random() < 0.4:
                 # the DEFAULT call (dtype=float64). Only without a zero atom count: there numpy returns inf/nan + RuntimeWarning
@@ -1077,6 +1091,9 @@ class C15(Property):
             a = [float(x) for x in json.loads(io)]
             inner = mo.strip()[1:-1]
             b = [] if not inner else [float('inf') if x == 'inf' else float(Fraction(x)) for x in inner.split(',')]
+            tol = c.get('tol')
+            if tol:
+                return len(a) == len(b) and all(x == y or abs(x - y) <= tol * abs(y) for x, y in zip(a, b))
             return a == b
         return io == mo
 
@@ -1665,7 +1682,10 @@ class C15(Property):
         legit_err = (len(init) != len(subs) or any(s[1] is None for _, s in subs)
                      or any(v == 0 and k != 0 for _, s in subs for k, v in (s[1] or [])))
         try:
-            b = rs.upper_conc_bounds(init, dtype=object, skip_keys=skip)
+            if c.get('dtype') == 'float':                    # the default call (float64) gets the same independent claim
+                b = rs.upper_conc_bounds([float(x) for x in init], skip_keys=skip)
+            else:
+                b = rs.upper_conc_bounds(init, dtype=object, skip_keys=skip)
         except (ValueError, AttributeError, ZeroDivisionError) as e:
             return None if legit_err else 'upper_conc_bounds raised %s on valid input' % exc_name(e)
         if legit_err:
@@ -1684,8 +1704,8 @@ class C15(Property):
             if want is None:
                 if bb != float('inf'):
                     return 'bound of %s (no elements) is %r, expected inf' % (s[0], bb)
-            elif float(want) != float(bb):
-                return 'bound of %s is %r, least of total/atoms is %s' % (s[0], bb, want)
+            elif float(want) != float(bb) and not (c.get('tol') and abs(float(bb) - float(want)) <= c['tol'] * abs(float(want))):
+                return 'bound of %s is %r, least of total/atoms is %s (= %r)' % (s[0], bb, want, float(want))
         # no non-negative state with the same element totals exceeds the bounds
         n = len(subs)
         if n and all(x >= 0 for x in init):
